@@ -1,3 +1,12 @@
 import InToto.Properties.C07
+#print axioms InToto.C07.attribute_exact
+#print axioms InToto.C07.empty_demands_absent
+#print axioms InToto.C07.unexpected_value_rejected
+#print axioms InToto.C07.missing_value_rejected
+#print axioms InToto.C07.attribute_perm
+#print axioms InToto.C07.accepted_sound
 #print axioms InToto.C07.no_constraints_reject
+#print axioms InToto.C07.wildcard_root_complete
+#print axioms InToto.C07.untrusted_rejected
 #print axioms InToto.C07.examples
+#print axioms InToto.C07.facts_wildcard
